@@ -1,31 +1,56 @@
 package rt
 
-import "fmt"
+import (
+	"fmt"
+	"reflect"
+)
 
 // A cooperative scheduler: the bodies run as goroutines, but exactly one runs at any time; control returns to the
-// scheduler at every Point (inserted before each statement of /repo that touches a package-level variable).
-// At every Point the explorer chooses the next thread; the canonical order of the enabled threads is "the running
+// scheduler at every Point (inserted before each statement of /repo that touches a package-level variable) and at
+// every synchronisation operation of the code under test (goroutine start, channel send / receive, lock, unlock,
+// wait - routed here by the instrumenter, see conc.go and rt/vsync).
+// At every point the explorer chooses the next thread; the canonical order of the enabled threads is "the running
 // thread first if it can continue, then ascending ids", so answer 0 means "no context switch" and any other answer
 // while the running thread can continue is a preemption (one deviation).
+//
+// Threads started by the code under test (Go) join the same scheduler. A thread that cannot proceed (a receive on an
+// empty channel, a lock that is held, a wait) is not enabled until some other thread has made progress; if no thread
+// is enabled and some are not finished, the execution is a deadlock.
 
 type thread struct {
-	id     int
-	resume chan struct{}
-	done   bool
-	panic  any
+	id      int
+	resume  chan struct{}
+	done    bool
+	panic   any
+	waiting bool // blocked in an operation that could not proceed
+	epoch   int  // value of sched.epoch when it started waiting
 }
 
 type sched struct {
-	threads []*thread
-	yield   chan *thread // a thread reports that it reached a Point (or finished)
-	cur     *thread
-	steps   int
+	threads  []*thread
+	yield    chan *thread // a thread reports that it reached a point (or finished)
+	cur      *thread
+	steps    int
+	epoch    int // counts operations that may unblock a waiting thread
+	deadlock bool
+	offers   map[uintptr][]*offer // pending sends on channels without room (keyed by channel identity)
+}
+
+type offer struct {
+	val   reflect.Value
+	taken bool
 }
 
 var curSched *sched
 
 // Horizon is the maximal number of scheduling steps per execution; beyond it the execution is abandoned.
 const Horizon = 200000
+
+// Controlled reports whether the caller runs as a thread of the cooperative scheduler.
+func Controlled() bool {
+	s := curSched
+	return s != nil && s.cur != nil
+}
 
 // Point is a scheduling point. global names the package-level variable about to be accessed.
 func Point(global, site string) {
@@ -38,46 +63,99 @@ func Point(global, site string) {
 	<-t.resume
 }
 
-// RunThreads runs the bodies under the scheduler and returns the panics (nil entries for normal termination)
-// and whether the horizon was hit.
+// SyncPoint is a scheduling point in front of a synchronisation operation.
+func SyncPoint() { Point("", "sync") }
+
+// Progress records that the running thread completed an operation that may unblock others.
+func Progress() {
+	if s := curSched; s != nil {
+		s.epoch++
+	}
+}
+
+// Block suspends the running thread until some other thread has made progress; the caller retries its operation.
+func Block() {
+	s := curSched
+	if s == nil || s.cur == nil {
+		return
+	}
+	t := s.cur
+	t.waiting, t.epoch = true, s.epoch
+	s.yield <- t
+	<-t.resume
+	t.waiting = false
+}
+
+func (s *sched) start(body func()) *thread {
+	t := &thread{id: len(s.threads), resume: make(chan struct{})}
+	s.threads = append(s.threads, t)
+	go func() {
+		<-t.resume
+		defer func() {
+			if p := recover(); p != nil {
+				t.panic = p
+			}
+			t.done = true
+			s.epoch++
+			s.yield <- t
+		}()
+		body()
+	}()
+	return t
+}
+
+// Go starts f as a further thread of the running execution (a plain goroutine outside a controlled execution).
+func Go(f func()) {
+	s := curSched
+	if s == nil || s.cur == nil {
+		go f()
+		return
+	}
+	s.start(f)
+	s.epoch++
+	SyncPoint() // the new thread may run first
+}
+
+// Deadlocked reports whether the last RunThreads ended with unfinished threads none of which could proceed.
+var Deadlocked bool
+
+// RunThreads runs the bodies under the scheduler and returns the panics (nil entries for normal termination; threads
+// started by the bodies come after them) and whether the horizon was hit.
 func RunThreads(bodies []func()) (panics []any, capped bool) {
-	s := &sched{yield: make(chan *thread)}
+	s := &sched{yield: make(chan *thread), offers: map[uintptr][]*offer{}}
 	curSched = s
+	Deadlocked = false
 	defer func() { curSched = nil }()
-	for i, body := range bodies {
-		t := &thread{id: i, resume: make(chan struct{})}
-		s.threads = append(s.threads, t)
-		go func(t *thread, body func()) {
-			<-t.resume
-			defer func() {
-				if p := recover(); p != nil {
-					t.panic = p
-				}
-				t.done = true
-				s.yield <- t
-			}()
-			body()
-		}(t, body)
+	for _, body := range bodies {
+		s.start(body)
 	}
 	var running *thread
 	for {
 		var enabled []*thread
-		if running != nil && !running.done {
+		can := func(t *thread) bool { return !t.done && (!t.waiting || s.epoch > t.epoch) }
+		if running != nil && can(running) {
 			enabled = append(enabled, running)
 		}
+		unfinished := 0
 		for _, t := range s.threads {
-			if !t.done && t != running {
+			if !t.done {
+				unfinished++
+			}
+			if t != running && can(t) {
 				enabled = append(enabled, t)
 			}
 		}
 		if len(enabled) == 0 {
+			if unfinished > 0 {
+				s.deadlock, Deadlocked = true, true
+			}
 			break
 		}
 		if s.steps++; s.steps > Horizon {
 			capped = true
 			break
 		}
-		if running == nil || running.done {
+		if running == nil || !can(running) {
 			freeNext = true
 		}
 		c := choose("sched", len(enabled))
@@ -92,10 +170,7 @@ func RunThreads(bodies []func()) (panics []any, capped bool) {
 	for _, t := range s.threads {
 		panics = append(panics, t.panic)
 	}
-	if capped {
-		return panics, true
-	}
-	return panics, false
+	return panics, capped
 }
 
 // Describe renders a schedule (sequence of choices) readably.
